@@ -8,6 +8,17 @@
 (* allocation).  One action per API call; sub-operators are named after    *)
 (* the C functions they transcribe.  Deterministic.                        *)
 (*                                                                         *)
+(* The node OBJECT handed to set_insert need not be zeroed: the caller may *)
+(* pass a node that was taken out of a set with no_dispose (src/config.c   *)
+(* moves nodes between sets that way), whose l/r/prev/next still hold what *)
+(* they held then.  Insert therefore takes the four values found in the    *)
+(* object (st, drawn from StaleLinks) and states every assignment the code *)
+(* makes to them; InsertIgnoresStale says that the outcome is the one for  *)
+(* a zeroed node, i.e. all four links of the inserted node are (re)written *)
+(* on every path.  BugStaleLinks re-introduces "replacement implemented as *)
+(* set_remove + ordinary insertion, which writes no link when the replaced *)
+(* element was the only one"; TLC refutes it (MCSplay3bug.cfg).            *)
+(*                                                                         *)
 (* TLC checks (MCSplay*.cfg): structural audit in every reachable state    *)
 (* (search-tree order, list = in-order walk, count) and, for every         *)
 (* transition, that B refines the contract SetMap (results, size, walk     *)
@@ -15,10 +26,14 @@
 (***************************************************************************)
 EXTENDS Integers, Sequences, FiniteSets, TLC
 
-CONSTANTS Keys              \* finite set of integers (ranks of the concrete keys)
+CONSTANTS Keys,             \* finite set of integers (ranks of the concrete keys)
+          StaleMode,        \* "poison": an inserted node object holds four non-node values in its links;
+                            \* "all": any combination of NULL, a non-node value and the live nodes
+          BugStaleLinks     \* BOOLEAN; TRUE re-introduces the defect described above (must be refuted)
 
 NULL == 0
 HDR  == -1                  \* the on-stack header node "N" of set_splay
+POISON == -2                \* a link value that is neither NULL nor a live node (freed / foreign / removed node)
 
 VARIABLES
     root, count,            \* struct set
@@ -31,6 +46,12 @@ VARIABLES
 vars == <<root, count, l, r, prv, nxt, key, nid, cl, kept, op>>
 
 Nodes == DOMAIN key
+
+\* what the l, r, prev, next fields of a node object may hold when it is handed to set_insert
+StaleVals  == IF StaleMode = "poison" THEN {POISON} ELSE Nodes \cup {NULL, POISON}
+StaleLinks == [l : StaleVals, r : StaleVals, prv : StaleVals, nxt : StaleVals]
+NullLinks  == [l |-> NULL, r |-> NULL, prv |-> NULL, nxt |-> NULL]          \* a node fresh from xmalloc (calloc)
+PoisonLinks == [l |-> POISON, r |-> POISON, prv |-> POISON, nxt |-> POISON]
 
 EmptyF == [x \in {} |-> 0]
 Drop(f, S) == [x \in DOMAIN f \ S |-> f[x]]
@@ -92,20 +113,23 @@ SetSplay(rt, ll, rr, d, ky) ==
     IN [root |-> n, l |-> Drop(l2, {HDR}), r |-> Drop(r2, {HDR}), res |-> s.res]
 
 -----------------------------------------------------------------------------
-(* walks over an explicit structure (so that they can be applied to the next state) *)
+(* walks over an explicit structure (so that they can be applied to the next state).  A link that is neither
+   NULL nor a live node (only possible with BugStaleLinks) ends a walk: the value is reported, not followed. *)
 RECURSIVE Leftmost(_, _)
-Leftmost(n, ll) == IF ll[n] = NULL THEN n ELSE Leftmost(ll[n], ll)
+Leftmost(n, ll) == IF n \notin DOMAIN ll \/ ll[n] = NULL THEN n ELSE Leftmost(ll[n], ll)
 SetFirst(rt, ll) == IF rt = NULL THEN NULL ELSE Leftmost(rt, ll)          \* set_first()
 
 RECURSIVE Chase(_, _, _)
 Chase(n, f, fuel) == IF n = NULL \/ fuel = 0 THEN <<>>                     \* set_next()/set_prev() until NULL
+                     ELSE IF n \notin DOMAIN f THEN <<n>>
                      ELSE <<n>> \o Chase(f[n], f, fuel - 1)
 
 RECURSIVE InOrder(_, _, _)
-InOrder(n, ll, rr) == IF n = NULL THEN <<>> ELSE InOrder(ll[n], ll, rr) \o <<n>> \o InOrder(rr[n], ll, rr)
+InOrder(n, ll, rr) == IF n = NULL THEN <<>> ELSE IF n \notin DOMAIN ll THEN <<n>>
+                      ELSE InOrder(ll[n], ll, rr) \o <<n>> \o InOrder(rr[n], ll, rr)
 
 RECURSIVE PreOrder(_, _, _, _)                                             \* tree shape: key, left, right; 0 = NULL
-PreOrder(n, ll, rr, ky) == IF n = NULL THEN <<0>>
+PreOrder(n, ll, rr, ky) == IF n = NULL THEN <<0>> ELSE IF n \notin DOMAIN ky THEN <<-9>>
                            ELSE <<ky[n]>> \o PreOrder(ll[n], ll, rr, ky) \o PreOrder(rr[n], ll, rr, ky)
 
 Last(s) == IF s = <<>> THEN NULL ELSE s[Len(s)]
@@ -118,7 +142,7 @@ Shape == PreOrder(root, l, r, key)
 Obs(o, k, nd, e, res, cleaned, st) ==
     LET f == Fwd(st.root, st.l, st.nxt) IN
     [o |-> o, k |-> k, nd |-> nd, id |-> e, res |-> res, cleaned |-> cleaned, size |-> st.count,
-     fwd |-> [i \in 1..Len(f) |-> <<st.key[f[i]], f[i]>>],
+     fwd |-> [i \in 1..Len(f) |-> <<IF f[i] \in DOMAIN st.key THEN st.key[f[i]] ELSE 0, f[i]>>],
      bwd |-> Bwd(st.root, st.l, st.nxt, st.prv)]
 
 Commit(st, o, k, nd, e, res, cleaned, released) ==
@@ -132,43 +156,64 @@ Commit(st, o, k, nd, e, res, cleaned, released) ==
 Cur == [root |-> root, count |-> count, l |-> l, r |-> r, prv |-> prv, nxt |-> nxt, key |-> key]
 
 -----------------------------------------------------------------------------
-(* void set_insert(struct set *set, struct set_node *node) -- node n = fresh, key k *)
-Insert(k) ==
+(* void set_insert(struct set *set, struct set_node *node) -- node n = a new element identity with key k,
+   in a node object whose links hold st on entry.  InsertSt yields the structure after the call and the
+   node disposed by a replacement (NULL if none).  lin/rin/pin/nin = the links with the object added as it
+   came; every "![n] = ..." below is one assignment of the C code to a link of the inserted node. *)
+InsertSt(k, st) ==
     LET n == nid IN
+    IF root = NULL
+    THEN \* node->l = node->r = node->next = node->prev = NULL;
+         [st |-> [root |-> n, count |-> count + 1,
+                  l   |-> [(n :> st.l) @@ l     EXCEPT ![n] = NULL],
+                  r   |-> [(n :> st.r) @@ r     EXCEPT ![n] = NULL],
+                  prv |-> [(n :> st.prv) @@ prv EXCEPT ![n] = NULL],
+                  nxt |-> [(n :> st.nxt) @@ nxt EXCEPT ![n] = NULL],
+                  key |-> (n :> k) @@ key],
+          dead |-> NULL]
+    ELSE
+    LET ky  == (n :> k) @@ key
+        sp  == SetSplay(root, l, r, k, key)
+        t   == sp.root
+        lin == (n :> st.l) @@ sp.l
+        rin == (n :> st.r) @@ sp.r
+        pin == (n :> st.prv) @@ prv
+        nin == (n :> st.nxt) @@ nxt
+        \* links of the new node and of the old root, before the neighbour fix-up
+        a  == IF sp.res < 0 THEN
+                 [l |-> [lin EXCEPT ![n] = sp.l[t], ![t] = NULL],       \* node->l = root->l; root->l = NULL;
+                  r |-> [rin EXCEPT ![n] = t],                          \* node->r = root;
+                  prv |-> [pin EXCEPT ![n] = prv[t]],                   \* node->prev = root->prev;
+                  nxt |-> [nin EXCEPT ![n] = t],                        \* node->next = root;
+                  key |-> ky, dead |-> NULL, cnt |-> count]
+              ELSE IF sp.res > 0 THEN
+                 [l |-> [lin EXCEPT ![n] = t],                          \* node->l = root;
+                  r |-> [rin EXCEPT ![n] = sp.r[t], ![t] = NULL],       \* node->r = root->r; root->r = NULL;
+                  prv |-> [pin EXCEPT ![n] = t],                        \* node->prev = root;
+                  nxt |-> [nin EXCEPT ![n] = nxt[t]],                   \* node->next = root->next;
+                  key |-> ky, dead |-> NULL, cnt |-> count]
+              ELSE IF BugStaleLinks /\ count = 1 THEN
+                 \* DEFECT (switch): the equal element is retired with set_remove(); it was the only one, the
+                 \* tree is empty, set_splay() returns 0 and neither linking branch runs: NO link is written
+                 [l |-> Drop(lin, {t}), r |-> Drop(rin, {t}), prv |-> Drop(pin, {t}), nxt |-> Drop(nin, {t}),
+                  key |-> Drop(ky, {t}), dead |-> t, cnt |-> count - 1]
+              ELSE                                                      \* memcpy(node, root): all four links
+                 [l |-> Drop([lin EXCEPT ![n] = sp.l[t]], {t}),         \*   node->l = root->l
+                  r |-> Drop([rin EXCEPT ![n] = sp.r[t]], {t}),         \*   node->r = root->r
+                  prv |-> Drop([pin EXCEPT ![n] = prv[t]], {t}),        \*   node->prev = root->prev
+                  nxt |-> Drop([nin EXCEPT ![n] = nxt[t]], {t}),        \*   node->next = root->next
+                  key |-> Drop(ky, {t}), dead |-> t, cnt |-> count - 1] \* dispose(root); count--;
+        \* if (node->prev) node->prev->next = node;  if (node->next) node->next->prev = node;
+        \* (a write through a link that is no live node is outside the model; the audit rejects that state)
+        nx2 == IF a.prv[n] \in DOMAIN a.nxt THEN [a.nxt EXCEPT ![a.prv[n]] = n] ELSE a.nxt
+        pv2 == IF a.nxt[n] \in DOMAIN a.prv THEN [a.prv EXCEPT ![a.nxt[n]] = n] ELSE a.prv
+    IN [st |-> [root |-> n, count |-> a.cnt + 1, l |-> a.l, r |-> a.r, prv |-> pv2, nxt |-> nx2, key |-> a.key],
+        dead |-> a.dead]
+
+Insert(k, st) ==
+    LET R == InsertSt(k, st) IN
     /\ nid' = nid + 1
-    /\ IF root = NULL
-       THEN Commit([root |-> n, count |-> count + 1,
-                    l |-> (n :> NULL) @@ l, r |-> (n :> NULL) @@ r,
-                    prv |-> (n :> NULL) @@ prv, nxt |-> (n :> NULL) @@ nxt, key |-> (n :> k) @@ key],
-                   "ins", k, FALSE, n, NULL, <<>>, {})
-       ELSE
-       LET ky == (n :> k) @@ key
-           sp == SetSplay(root, l, r, k, key)
-           t  == sp.root
-           \* links of the new node and of the old root, before the neighbour fix-up
-           a  == IF sp.res < 0 THEN
-                    [l |-> (n :> sp.l[t]) @@ [sp.l EXCEPT ![t] = NULL],    \* node->l = root->l; root->l = NULL;
-                     r |-> (n :> t) @@ sp.r,                               \* node->r = root;
-                     prv |-> (n :> prv[t]) @@ prv,                         \* node->prev = root->prev;
-                     nxt |-> (n :> t) @@ nxt,                              \* node->next = root;
-                     key |-> ky, dead |-> {}, cnt |-> count]
-                 ELSE IF sp.res > 0 THEN
-                    [l |-> (n :> t) @@ sp.l,                               \* node->l = root;
-                     r |-> (n :> sp.r[t]) @@ [sp.r EXCEPT ![t] = NULL],    \* node->r = root->r; root->r = NULL;
-                     prv |-> (n :> t) @@ prv,                              \* node->prev = root;
-                     nxt |-> (n :> nxt[t]) @@ nxt,                         \* node->next = root->next;
-                     key |-> ky, dead |-> {}, cnt |-> count]
-                 ELSE                                                      \* memcpy(node, root); dispose(root); count--;
-                    [l |-> Drop((n :> sp.l[t]) @@ sp.l, {t}),
-                     r |-> Drop((n :> sp.r[t]) @@ sp.r, {t}),
-                     prv |-> Drop((n :> prv[t]) @@ prv, {t}),
-                     nxt |-> Drop((n :> nxt[t]) @@ nxt, {t}),
-                     key |-> Drop(ky, {t}), dead |-> {t}, cnt |-> count - 1]
-           \* if (node->prev) node->prev->next = node;  if (node->next) node->next->prev = node;
-           nx2 == IF a.prv[n] # NULL THEN [a.nxt EXCEPT ![a.prv[n]] = n] ELSE a.nxt
-           pv2 == IF a.nxt[n] # NULL THEN [a.prv EXCEPT ![a.nxt[n]] = n] ELSE a.prv
-       IN Commit([root |-> n, count |-> a.cnt + 1, l |-> a.l, r |-> a.r, prv |-> pv2, nxt |-> nx2, key |-> a.key],
-                 "ins", k, FALSE, n, NULL, IF a.dead = {} THEN <<>> ELSE <<t>>, {})
+    /\ Commit(R.st, "ins", k, FALSE, nid, NULL, IF R.dead = NULL THEN <<>> ELSE <<R.dead>>, {})
 
 (* void *set_find(struct set *set, const void *datum) *)
 Find(k) ==
@@ -223,7 +268,8 @@ Init == /\ root = NULL /\ count = 0
         /\ nid = 1 /\ cl = EmptyF /\ kept = {}
         /\ op = Obs("init", NULL, FALSE, NULL, NULL, <<>>, Cur)
 
-Next == \/ \E k \in Keys : Insert(k) \/ Find(k) \/ Lower(k) \/ Remove(k, TRUE) \/ Remove(k, FALSE)
+Next == \/ \E k \in Keys : \/ \E st \in StaleLinks : Insert(k, st)
+                          \/ Find(k) \/ Lower(k) \/ Remove(k, TRUE) \/ Remove(k, FALSE)
         \/ Clear(TRUE) \/ Clear(FALSE) \/ Iterate
 
 Spec == Init /\ [][Next]_vars
@@ -249,6 +295,10 @@ ListIsInOrder == /\ Fwd(root, l, nxt) = Walk
                        /\ nxt[Walk[i]] = IF i = Len(Walk) THEN NULL ELSE Walk[i + 1]
                        /\ prv[Walk[i]] = IF i = 1 THEN NULL ELSE Walk[i - 1]
 CountOK == count = Len(Walk)
+
+\* set_insert writes all four links of the node it is given, on every path: whatever the object held,
+\* the structure after the call is the one for a zeroed node
+InsertIgnoresStale == \A k \in Keys : \A st \in StaleLinks : InsertSt(k, st) = InsertSt(k, NullLinks)
 
 -----------------------------------------------------------------------------
 (* Refinement: B implements the contract.  Node ids are element ids. *)
